@@ -44,6 +44,101 @@ def nrows_with_parent(E, t, k):
     return X.count_rs(E, mask)
 
 
+# ===========================================================================================================================
+# fixed topologies (labelled variants): the textbook decomposition over a CONCRETE parent vector, written with explicit loops and
+# independent of the library
+class Topo8:
+    def __init__(self, pids):
+        self.pids, self.n = [int(p) for p in pids], len(pids)
+
+    def kids(self, i):
+        return [j for j in range(self.n) if self.pids[j] == i]
+
+    def tips(self):
+        return [i for i in range(self.n) if not self.kids(i)]
+
+    def furcations(self):
+        return [i for i in range(self.n) if len(self.kids(i)) >= 2]
+
+    def critical(self):
+        """the root, the furcations and the tips"""
+        return sorted({0} | set(self.tips()) | set(self.furcations()))
+
+    def branches(self):
+        """maximal chains: from the root or a furcation through pass-through nodes to the next furcation or tip"""
+        out = []
+        for s in range(self.n):
+            if s == 0 or len(self.kids(s)) >= 2:
+                for c in self.kids(s):
+                    b = [s, c]
+                    while len(self.kids(b[-1])) == 1:
+                        b.append(self.kids(b[-1])[0])
+                    out.append(b)
+        return out
+
+
+def rooted_trees8(n):
+    """every parent vector of a labelled tree on 0..n-1 with root 0 (any numbering of the other nodes, parents need not come first)"""
+    import itertools
+
+    out = []
+    for ps in itertools.product(range(n), repeat=n - 1):
+        pids, ok = [-1] + list(ps), True
+        for i in range(1, n):
+            seen, j = set(), i
+            while j != 0 and j not in seen:
+                seen.add(j)
+                j = pids[j]
+            ok = ok and j == 0
+        if ok:
+            out.append(pids)
+    return out
+
+
+def shape_name(pids):
+    t = Topo8(pids)
+    k0 = len(t.kids(0))
+    kind = "single node" if t.n == 1 else ("chain" if not t.furcations() else f"root with {k0} child{'ren' if k0 != 1 else ''}")
+    if t.n > 1 and k0 == 1 and t.furcations():
+        stem = next(b for b in t.branches() if b[0] == 0)
+        kind += f", stem of {len(stem) - 1} edge{'s' if len(stem) != 2 else ''}"
+    if any(p >= i for i, p in enumerate(pids)):
+        kind += ", parents not first"
+    return f"pid={list(pids)} ({kind})"
+
+
+FIXED_SHAPES = {shape_name(p): p for n in (1, 2, 3, 4) for p in rooted_trees8(n)}  # 1 + 1 + 3 + 16 labelled trees
+for _p in ([-1, 0, 1, 2, 2, 3, 4],       # Y with a two-edge stem
+           [-1, 0, 1, 1, 2, 3, 3],       # one-edge stem into a furcation, pass-through nodes below it, a second furcation
+           [-1, 0, 0, 1, 1, 2],          # the root is a furcation
+           [-1, 0, 1, 1, 1, 2],          # trifurcation after a one-edge stem
+           [-1, 0, 1, 2, 3],             # chain of five
+           [-1, 0, 0, 0, 1, 1, 1],       # root with three children, a trifurcation below
+           [-1, 3, 1, 0, 3, 4, 4],       # furcation stored behind its children
+           [-1, 2, 3, 0, 1]):            # chain stored from the far end
+    FIXED_SHAPES[shape_name(_p)] = _p
+
+
+def fixed_topology_tree(S, pids, name="t", tag=False):
+    """a Tree whose id / pid columns are the given CONCRETE topology (id[i] = i), every other column symbolic; with `tag`, an extra
+    attribute column `tag` whose value at node i is the concrete label 100 + i (it tells which original node a row of a derived
+    table was gathered from).  Frozen: any store into it is a failed frame obligation."""
+    from contracts.common import sym_tree_fixed
+    from pyvc.values import NArr
+
+    n = len(pids)
+    t = sym_tree_fixed(S, n, name, frozen=True)
+    cols = [("id", list(range(n))), ("pid", [int(p) for p in pids])] + ([("tag", [100 + i for i in range(n)])] if tag else [])
+    for cname, vals in cols:
+        a = NArr((n,), vals, "int")
+        a.frozen = True
+        nd = t.fields["ndata"]
+        fz, nd.frozen = nd.frozen, False
+        nd.items[cname] = a
+        nd.frozen = fz
+    return t
+
+
 def register(R: Registry):
     # ================================================================ Node.is_furcation
     # property: "furcations [are] exactly the nodes with two or more children"; a child of a node is a row whose pid is
@@ -395,25 +490,11 @@ def register(R: Registry):
     # pass-through nodes in between, and consecutive entries are (parent, child).  Topology (id = position, pid) is concrete
     # per variant, every other column is symbolic; furcation nodes are left out (the property does not say which of their
     # branches `branch()` reports).
-    SHAPES = {
-        "chain4": [-1, 0, 1, 2],
-        "Y-with-stem": [-1, 0, 1, 2, 2, 3, 4],
-        "root-furcation": [-1, 0, 0, 1, 1, 2],
-        "trident": [-1, 0, 1, 1, 1, 2],
-    }
+    SHAPES = dict(FIXED_SHAPES)
 
     def nb_setup(pids, x):
         def f(S):
-            from contracts.common import sym_tree_fixed
-            from pyvc.values import NArr
-
-            n = len(pids)
-            t = sym_tree_fixed(S, n, "t", frozen=True)
-            for cname, vals in (("id", list(range(n))), ("pid", list(pids))):
-                a = NArr((n,), vals, "int")
-                a.frozen = True
-                t.fields["ndata"].items[cname] = a
-            return dict(self=node_obj(S, t, idx=x), __ghost__=dict(pids=list(pids), x=x))
+            return dict(self=node_obj(S, fixed_topology_tree(S, pids), idx=x), __ghost__=dict(pids=list(pids), x=x))
 
         return f
 
@@ -433,6 +514,9 @@ def register(R: Registry):
         ok = ok and (pids[L[0]] == -1 or nch(L[0]) >= 2) and (nch(L[-1]) >= 2 or nch(L[-1]) == 0)
         ok = ok and all(nch(a) == 1 for a in L[1:-1]) and all(pids[b] == a for a, b in zip(L, L[1:]))
         ok = ok and (len(L) >= 2 or len(pids) == 1) and (L[0] != x or pids[x] == -1)
+        # the same statement through the textbook decomposition: it is THE branch that holds the edge into x (for the root: the branch it starts)
+        want = [b for b in Topo8(pids).branches() if x in (b if pids[x] == -1 else b[1:])]
+        ok = ok and (len(pids) == 1 or (len(want) == 1 and list(want[0]) == list(L)))
         return bool(ok)
 
     nb_variants = {}
@@ -441,12 +525,12 @@ def register(R: Registry):
             k = sum(1 for p in pids if p == x)
             if k >= 2:
                 continue
-            nb_variants[f"{sname} pid={pids} node {x} ({'tip' if k == 0 else 'pass-through'})"] = nb_setup(pids, x)
+            nb_variants[f"{sname} node {x} ({'tip' if k == 0 else 'pass-through'})"] = nb_setup(pids, x)
 
     R.add(f"{TREE}:Tree.Node.branch", prop="C08",
           variants=nb_variants,
           ensures=[("the-branch-through-the-node-root-or-furcation-to-furcation-or-tip-pass-through-inside", nb_post)],
-          notes="fixed concrete topologies (4 shapes, every non-furcation node); the is_furcation / is_tip / parent / children calls are inlined from the current source",
+          notes="fixed concrete topologies (every labelled rooted tree of 1-4 nodes in any numbering, and 8 larger shapes; every non-furcation node); the is_furcation / is_tip / parent / children calls are inlined from the current source",
           options=dict(OPTS))
 
 
@@ -1160,9 +1244,13 @@ def register_whole(R):
         st2("every-branch-ends-at-a-node-that-has-not-exactly-one-child", z3.ForAll([i], z3.Implies(ini, z3.And(ctx.R(at(i, sel(LEN, i) - 1)), ctx.nkids(at(i, sel(LEN, i) - 1)) != 1)), patterns=[sel(LEN, i)]))
         st2("every-interior-node-of-a-branch-has-exactly-one-child", z3.ForAll([i, j], z3.Implies(z3.And(ini, 1 <= j, j < sel(LEN, i) - 1), z3.And(ctx.R(at(i, j)), ctx.nkids(at(i, j)) == 1)), patterns=[at(i, j)]))
 
-    def gbw_hint_mapping(E, vars):
+    def gbw_hint_mapping(which):
+        return lambda E, vars: gbw_hint_mapping_(E, vars, which)
+
+    def gbw_hint_mapping_(E, vars, which):
         """which branch of the traversal a branch of the result is (the result is the traversal's list, or that list with the closing branch
-        appended, reversed)"""
+        appended, reversed).  "closing": only the step about the branch that closes the pending chain of the root (all that the clause
+        `pending-chain-of-more-than-one-node-closed-root-first` needs: its proof must not rest on the steps about the OTHER branches)."""
         res = E.ghost["gb-result"]
         IDX, LEN, m = res.cols[0], res.cols[1], zint(res.n)
         lc, hn = hlc9(0), hn9(0)
@@ -1171,9 +1259,11 @@ def register_whole(R):
         at = lambda a, b: sel(sel(IDX, a), b)
         ri = ite(closing, hn - i, i)
         other = z3.And(0 <= i, i < m, z3.Not(z3.And(closing, i == 0)))
-        if z3.is_true(closing):
-            E.prove("Tree.get_branches/step/the-first-branch-of-the-result-closes-the-pending-chain-of-the-root-root-first",
-                    z3.And(m == hn + 1, sel(LEN, 0) == lc, z3.ForAll([j], z3.Implies(z3.And(0 <= j, j < lc), at(0, j) == hc9(0, lc - 1 - j)), patterns=[at(0, j)])), "annotation")
+        if which == "closing":
+            if z3.is_true(closing):
+                E.prove("Tree.get_branches/step/the-first-branch-of-the-result-closes-the-pending-chain-of-the-root-root-first",
+                        z3.And(m == hn + 1, sel(LEN, 0) == lc, z3.ForAll([j], z3.Implies(z3.And(0 <= j, j < lc), at(0, j) == hc9(0, lc - 1 - j)), patterns=[at(0, j)])), "annotation")
+            return
         E.prove("Tree.get_branches/step/a-branch-other-than-the-closing-one-is-a-branch-of-the-traversal",
                 z3.And(z3.ForAll([i], z3.Implies(other, z3.And(0 <= ri, ri < hn, sel(LEN, i) == hLEN9(0, ri))), patterns=[sel(LEN, i)]),
                        z3.ForAll([i, j], z3.Implies(z3.And(other, 0 <= j, j < sel(LEN, i)), at(i, j) == hB9(0, ri, j)), patterns=[at(i, j)])), "annotation")
@@ -1249,7 +1339,8 @@ def register_whole(R):
             voc = [ctx.P, ctx.n, res.cols[0], res.cols[1], zint(res.n)] + ([ctx.nkids, col(t, "id").arr] if kind == "shape" else [hn9, hlc9, hLEN9, hB9, hc9] if kind == "map" else list(g9(vars)) + [hn9, hlc9])
             if kind == "ends":
                 voc += [ctx.nkids, col(t, "id").arr]
-            X.prove_in_vocabulary(E, f"Tree.get_branches/step/{which}-from-the-steps", E.ghost[("gb-post", which)], voc)
+            # THE postcondition, under its own name and kind: when the steps no longer carry it, the clause of the property fails (not a proof step)
+            X.prove_in_vocabulary(E, f"Tree.get_branches/post/{which}", E.ghost[("gb-post", which)], voc, kind="postcondition", note="from the proof steps")
 
         return f
 
@@ -1263,8 +1354,8 @@ def register_whole(R):
           ensures=[(w, gbw_post(w)) for w in GBW],
           inlined_loops={f"{TREE}:Tree.get_branches.<locals>.collect_branches": {0: CB_LOOP}},
           options=dict(OPTS, traverse_rule=Rule(gb_J, Ql=gb_Ql, modifies=["G9"], leave_kind=gb_leave_kind, leave_args=gb_leave_args, ghost_leave=gb_ghost_leave2),
-                       hints={"post/pending-chain-of-more-than-one-node-closed-root-first": gbw_then_post("pending-chain-of-more-than-one-node-closed-root-first", gbw_hint_mapping, kind="map"),
-                              "post/every-branch-of-the-traversal-kept": gbw_then_post("every-branch-of-the-traversal-kept", kind="map"),
+                       hints={"post/pending-chain-of-more-than-one-node-closed-root-first": gbw_then_post("pending-chain-of-more-than-one-node-closed-root-first", gbw_hint_mapping("closing"), kind="map"),
+                              "post/every-branch-of-the-traversal-kept": gbw_then_post("every-branch-of-the-traversal-kept", gbw_hint_mapping("others"), kind="map"),
                               "post/every-branch-starts-at-the-root-or-a-furcation": gbw_then_post("every-branch-starts-at-the-root-or-a-furcation", gbw_hint),
                               "post/every-branch-ends-at-a-furcation-or-a-tip": gbw_then_post("every-branch-ends-at-a-furcation-or-a-tip"),
                               "post/interior-nodes-are-pass-through": gbw_then_post("interior-nodes-are-pass-through"),
@@ -1358,6 +1449,139 @@ def _fresh_lll(E, K):
     return a, a.get
 
 
+# ===========================================================================================================================
+# the branch tree on fixed topologies: "The branch tree has exactly the root, furcations and tips as nodes, joined as the branches join
+# them, and remembers each original branch's points."
+INLINE8 = ["swc_utils/base.py:traverse", "swc_utils/base.py:_traverse_dfs", ":Tree.traverse", ":Tree.Node.traverse", ":to_sub_topology", ":Tree.get_branches",
+           ":Tree.Node.parent", ":Tree.Node.children", ":Node.is_furcation", ":Node.is_tip", ":BranchTree.from_tree", ":Tree.get_paths", ":Path.length"]
+
+
+def register_branch_tree(R):
+    from pyvc.values import NArr, PDict
+
+    BT = "swcgeom/core/branch_tree.py"
+    TT = "swcgeom/transforms/tree.py"
+
+    def ints(a):
+        """the entries of a concrete 1-D int array, else None"""
+        if isinstance(a, NArr) and a.ndim == 1 and all(isinstance(x, int) and not isinstance(x, bool) for x in a.items):
+            return list(a.items)
+        return None
+
+    def bt_view(E, v, o, tree="tree"):
+        """(input tree, its parent vector, result, columns of the result, original node behind every row of the result) or None"""
+        from swcgeom.core.branch_tree import BranchTree
+
+        t, res = o[tree], v["result"]
+        if not (isinstance(res, Obj) and res.cls is BranchTree and isinstance(res.fields.get("ndata"), PDict) and res.fields["ndata"].items is not None):
+            return None
+        cols = res.fields["ndata"].items
+        tag = ints(cols.get("tag"))
+        if tag is None or any(not isinstance(a, NArr) or a.ndim != 1 or len(a.items) != len(tag) for a in cols.values()):
+            return None
+        return t, ints(col(t, "pid")), res, cols, [x - 100 for x in tag]
+
+    def remembered(res):
+        """[(key, original node sequence, Branch object)] of the `branches` registry, or None"""
+        from swcgeom.core.branch import Branch
+
+        d = res.fields.get("branches")
+        if not (isinstance(d, PDict) and d.items is not None):
+            return None
+        out = []
+        for key, lst in d.items.items():
+            if not (isinstance(key, int) and isinstance(lst, PList) and lst.items is not None):
+                return None
+            for b in lst.items:
+                if not (isinstance(b, Obj) and issubclass(b.cls, Branch) and isinstance(b.fields.get("attach"), Obj) and isinstance(b.fields["attach"].fields.get("ndata"), PDict)):
+                    return None
+                bc = b.fields["attach"].fields["ndata"].items
+                tag, idx = ints(bc.get("tag")) if bc is not None else None, ints(b.fields.get("idx"))
+                if tag is None or idx is None or any(not isinstance(a, NArr) or a.ndim != 1 or len(a.items) != len(tag) for a in bc.values()):
+                    return None
+                out.append((key, [x - 100 for x in tag], b))
+        return out
+
+    def bt_post(which, tree="tree"):
+        def f(E, v, o):
+            vw = bt_view(E, v, o, tree)
+            if vw is None:
+                return False
+            t, pids, res, cols, olds = vw
+            T8, m = Topo8(pids), len(olds)
+            orig = t.fields["ndata"].items
+            if which == "a-branch-tree-with-the-columns-of-the-tree-on-fresh-storage":
+                return (list(cols) == list(orig) and all(a.root().uid not in E.entry_uids for a in cols.values()) and res.uid not in E.entry_uids
+                        and res.fields.get("names") is t.fields["names"] and res.fields.get("source") == t.fields["source"])
+            if which == "nodes-are-exactly-the-root-the-furcations-and-the-tips-each-once":
+                return sorted(olds) == T8.critical()
+            if which == "every-attribute-of-a-node-is-that-of-the-original-node":
+                if any(not (0 <= a < T8.n) for a in olds):
+                    return False
+                return z3.And(*[to_z3(cols[c].items[k], cols[c].kind) == to_z3(orig[c].items[olds[k]], cols[c].kind) for c in cols if c not in ("id", "pid") for k in range(m)] + [z3.BoolVal(True)])
+            ids, ps = ints(cols["id"]), ints(cols["pid"])
+            if ids is None or ps is None:
+                return False
+            if which == "ids-are-positions-the-root-comes-first":
+                return ids == list(range(m)) and m >= 1 and ps[0] == -1 and olds[0] == 0 and all(0 <= q < m for q in ps[1:])
+            if which == "one-edge-per-branch-from-its-first-to-its-last-node":
+                if not all(0 <= q < m for q in ps[1:]):
+                    return False
+                return sorted((olds[ps[k]], olds[k]) for k in range(1, m)) == sorted((b[0], b[-1]) for b in T8.branches())
+            rem = remembered(res)
+            if rem is None:
+                return False
+            if which == "remembers-exactly-the-branches-of-the-tree-each-once":
+                return sorted(seq for _, seq, _ in rem) == sorted(T8.branches())
+            if which == "every-branch-is-filed-under-the-branch-tree-node-of-its-first-point":
+                return all(0 <= key < m and seq and olds[key] == seq[0] for key, seq, _ in rem)
+            if which == "a-remembered-branch-keeps-the-points-of-the-original-branch":
+                out = []
+                for key, seq, b in rem:
+                    bc = b.fields["attach"].fields["ndata"].items
+                    if ints(b.fields["idx"]) != list(range(len(seq))) or any(not (0 <= a < T8.n) for a in seq) or list(bc) != list(orig):
+                        return False
+                    if ints(bc["id"]) != list(range(len(seq))) or ints(bc["pid"]) != list(range(-1, len(seq) - 1)):
+                        return False  # a detached branch is numbered 0.. along itself
+                    out += [to_z3(bc[c].items[j], bc[c].kind) == to_z3(orig[c].items[seq[j]], bc[c].kind) for c in bc if c not in ("id", "pid") for j in range(len(seq))]
+                return z3.And(*out + [z3.BoolVal(True)])
+            if which == "remembered-branches-are-detached-copies":
+                return all(b.fields["attach"] is not t and all(a.root().uid not in E.entry_uids for a in b.fields["attach"].fields["ndata"].items.values()) for _, _, b in rem)
+            raise KeyError(which)
+
+        return f
+
+    BTP = ["a-branch-tree-with-the-columns-of-the-tree-on-fresh-storage", "nodes-are-exactly-the-root-the-furcations-and-the-tips-each-once",
+           "every-attribute-of-a-node-is-that-of-the-original-node", "ids-are-positions-the-root-comes-first", "one-edge-per-branch-from-its-first-to-its-last-node",
+           "remembers-exactly-the-branches-of-the-tree-each-once", "every-branch-is-filed-under-the-branch-tree-node-of-its-first-point",
+           "a-remembered-branch-keeps-the-points-of-the-original-branch", "remembered-branches-are-detached-copies"]
+    NOTE = ("fixed concrete topologies (every labelled rooted tree of 1-4 nodes in any numbering, and 8 larger shapes); type / x / y / z / r of every node are symbolic, an extra "
+            "attribute column `tag` carries the label 100 + i of node i; get_branches, the traversal, to_sub_topology, Tree.__init__ and Branch.detach are executed from their current source; the input tree is frozen")
+
+    def ft_setup(pids):
+        def f(S):
+            from swcgeom.core.branch_tree import BranchTree
+
+            return dict(cls=BranchTree, tree=fixed_topology_tree(S, pids, tag=True))
+
+        return f
+
+    R.add(f"{BT}:BranchTree.from_tree", prop="C08", variants={nm: ft_setup(p) for nm, p in FIXED_SHAPES.items()},
+          ensures=[(w, bt_post(w)) for w in BTP], notes=NOTE, options=dict(OPTS, inline_calls=INLINE8))
+
+    def tb_setup(pids):
+        def f(S):
+            from swcgeom.transforms.tree import ToBranchTree
+
+            return dict(self=S.obj(ToBranchTree), x=fixed_topology_tree(S, pids, tag=True))
+
+        return f
+
+    R.add(f"{TT}:ToBranchTree.__call__", prop="C08", variants={nm: tb_setup(p) for nm, p in FIXED_SHAPES.items()},
+          ensures=[(w, bt_post(w, "x")) for w in BTP], notes=NOTE, options=dict(OPTS, inline_calls=INLINE8))
+
+
 def register(R):  # noqa: F811
     _reg8(R)
     register_whole(R)
+    register_branch_tree(R)
